@@ -270,6 +270,20 @@ func decodeProp(prop string) *Prop {
 			Run: func(c *Ctx) { decodeMixed(c, prop, 3) },
 		},
 		{
+			// a long history of tiny files whose three zone-offset texts are all different and all
+			// new: whatever the library keeps per text or per offset across calls must not make a
+			// later call allocate beyond its bound (the allocation invariant is monitored across the
+			// whole history of a worker, not only per input)
+			Name: "zonehistory", Phase: 1, Weight: 1,
+			N: func(tier string, seed uint64) uint64 {
+				if tier == "thorough" {
+					return 3000000
+				}
+				return 320000
+			},
+			Run: func(c *Ctx) { decodeMixed(c, prop, 5) },
+		},
+		{
 			// one token far longer than any look-ahead window (an XMP value or padding run of
 			// 70..700 KB), alone or inside a CR3 xpacket box: work and allocation stay linear
 			Name: "bigtoken", Phase: 1, Weight: 1,
@@ -489,7 +503,19 @@ func decodeMixed(c *Ctx, prop string, class int) {
 	var e *harness.Entry
 	hi := 0
 	random := class == 1
-	if class == 4 {
+	if class == 5 {
+		rec := &gengen.Record{ModifyDate: &gengen.DateTime{Y: 2020, Mo: 1, D: 2, H: 3, Mi: 4, S: 5}}
+		rec.DateOrig, rec.DateDig = rec.ModifyDate, rec.ModifyDate
+		f := gen.Sub()
+		txt := func() *string {
+			t := string([]byte{"+-"[f.Intn(2)], 0x21 + byte(f.Intn(94)), 0x21 + byte(f.Intn(94)), ':', 0x21 + byte(f.Intn(94)), 0x21 + byte(f.Intn(94))})
+			return &t
+		}
+		rec.Offset, rec.OffsetOrig, rec.OffsetDig = txt(), txt(), txt()
+		data = gengen.TIFFFile(gen, gengen.BuildTIFF(gen, rec, gengen.LayoutOpts{Canonical: true}).Encode(gen.Bool()).Bytes, false)
+		name, e = "gen:TIFF(zone texts)", harness.EntryByName([]string{"Decode", "DecodeTiff", "exif2.Parse"}[gen.Intn(3)])
+		hi = len(data)
+	} else if class == 4 {
 		n := 70000 + gen.Intn(630000)
 		val := strings.Repeat("A", n)
 		var pkt string
